@@ -113,12 +113,13 @@ def run(rep, br, proofs, rng, tier):
             if eq != eqr: fails.append(("(pair %s %s)" % (vlib.sexp_str(P[i]), vlib.sexp_str(P[j])), "a == b is %s but b == a is %s" % (eq, eqr)))
             if {eq, ne} != {"(b 0)", "(b 1)"}: fails.append(("(pair %s %s)" % (vlib.sexp_str(P[i]), vlib.sexp_str(P[j])), "a != b is not the negation of a == b"))
             rel = [okb(ans(t, i, j)) for t in ("lt", "le", "gt", "ge")] + [okb(ans(t, j, i)) for t in ("lt", "le", "gt", "ge")]
-            if None in rel or is_nan(P[i]) or is_nan(P[j]): continue
+            if None in rel: continue
             law_pairs += 1
             lt, le, gt, ge, rlt, rle, rgt, rge = rel
             e = eq == "(b 1)"
             pair = "(pair %s %s)" % (vlib.sexp_str(P[i]), vlib.sexp_str(P[j]))
-            if [lt, e, gt].count(True) != 1: fails.append((pair, "not exactly one of a<b, a==b, a>b: %s %s %s" % (lt, e, gt)))
+            # (exactly one of <, ==, > holds - NaN aside; the other laws hold for NaN as well)
+            if not (is_nan(P[i]) or is_nan(P[j])) and [lt, e, gt].count(True) != 1: fails.append((pair, "not exactly one of a<b, a==b, a>b: %s %s %s" % (lt, e, gt)))
             if le != (lt or e): fails.append((pair, "a<=b differs from a<b or a==b"))
             if ge != (gt or e): fails.append((pair, "a>=b differs from a>b or a==b"))
             if lt != rgt: fails.append((pair, "a<b differs from b>a"))
